@@ -332,6 +332,24 @@ let step (ss : sess) (t : str array) : str =
   | "code" -> code_dump s (int_of_string t.(1))
   | "dict" -> dict_dump s (int_of_string t.(1))
   | "pretty" -> "pretty:-"
+  | "printread" ->
+    (match pop_data s with
+     | ROk (c, s1) ->
+       ss.states.(ss.cur) <- s1;
+       (match Fmt.format_cell c with
+        | None -> raise Unsupported
+        | Some text ->
+          let t = string_of_coq text in
+          (match Build.eval !cur_fops parse_real run_fuel build_fuel text s1 with
+           | ROk ((), s2) ->
+             (match pop_data s2 with
+              | ROk (v, _) -> if cell_eqb v c then "printread:ok"
+                else Printf.sprintf "printread:DIFFERENT text=%s got=%s" (hexbytes_of_string t) (cell_str v)
+              | _ -> "printread:NOTHING text=" ^ hexbytes_of_string t)
+           | RErr (k, p, _) -> Printf.sprintf "printread:UNREADABLE text=%s %s" (hexbytes_of_string t) (err_text k p)
+           | RPanic -> "PANIC" | RUnsup -> raise Unsupported))
+     | RErr (k, p, s1) -> ss.states.(ss.cur) <- s1; err_text k p
+     | RPanic -> "PANIC" | RUnsup -> raise Unsupported)
   | "errloc" -> (try Hashtbl.find ss.locs ss.cur with Not_found -> "loc:none")
   | "cursor" ->
     let rec nth l k = match l with [] -> None | x :: r -> if k = 0 then Some x else nth r (k - 1) in
